@@ -325,9 +325,20 @@ func runCase(rec *vr.Rec, c dcase, rnd *rand.Rand) {
 		} else {
 			now = t0hi.Add(lifetime + time.Second)
 		}
+		if c.Boundary == "after-late-duplicate" {
+			// the lifetime of a message ID counts from the FIRST copy: a duplicate that arrives a while later (answered from
+			// the cache) does not extend it. The duplicate arrives >= 30 ms (real time) after every earlier copy; housekeeping
+			// then runs at "everything so far + lifetime + 15 ms", i.e. after the lifetime of the first copy and before
+			// what the lifetime would be if it had been counted from the late duplicate.
+			time.Sleep(30 * time.Millisecond)
+			_ = h.cc.Process(nil, dg)
+			wantReplies(c.Copies + 1)
+			now = t0hi.Add(lifetime + 15*time.Millisecond)
+			c.Copies++
+		}
 		h.cc.CheckExpirations(now)
 		_ = h.cc.Process(nil, dg)
-		if c.Behav == "nested" && c.Boundary == "after" {
+		if c.Behav == "nested" && c.Boundary != "before" {
 			// a fresh execution blocks in the nested request: release it (if the handler does not
 			// run again, no nested request appears and the wait below reports that)
 			sim.WaitFor(5*time.Second, func() bool { return h.answerNested(&seen) > 0 })
@@ -343,6 +354,9 @@ func runCase(rec *vr.Rec, c dcase, rnd *rand.Rand) {
 		}
 		if c.Boundary == "after" && runs2 != 2 {
 			rec.Violation("C05/lifetime/not-fresh-after-lifetime", fmt.Sprintf("sweep at t0+247s+1s, then a copy: handler ran %d times (want 2)", runs2), c)
+		}
+		if c.Boundary == "after-late-duplicate" && runs2 != 2 {
+			rec.Violation("C05/lifetime/extended-by-a-late-duplicate", fmt.Sprintf("a duplicate arrived 30 ms after the first copy; sweep at (first copy)+247s+15ms, then a copy: handler ran %d times (want 2: the lifetime counts from the first copy)", runs2), c)
 		}
 	}
 }
@@ -431,6 +445,9 @@ func TestRun(t *testing.T) {
 						c.Boundary = "before"
 					case 2:
 						c.Boundary = "after"
+						if rep%8 == 3 && b != "nested" {
+							c.Boundary = "after-late-duplicate"
+						}
 					}
 					if inj != "sequential" {
 						c.Others = 0
